@@ -93,7 +93,84 @@ func stage1Corpus() []stage1Case {
 }
 
 // ---------------------------------------------------------------------------------------------
-// stage 2: random compositions
+// stage 2, deterministic part: pairs of features (field-level x type-level, wrapper x inner type)
+
+type pairCase struct {
+	A, B string
+	Spec TSpec
+}
+
+func pairCorpus() []pairCase {
+	type tl struct {
+		name string
+		t    TSpec
+	}
+	var types []tl
+	for _, k := range primOrder {
+		types = append(types, tl{"prim:" + k, TSpec{K: k}})
+	}
+	for _, k := range leafSpecials {
+		types = append(types, tl{k, TSpec{K: k}})
+	}
+	inner := oneField(plainField("A", TSpec{K: "int"}))
+	types = append(types, tl{"struct", inner}, tl{"empty-struct", TSpec{K: "struct"}})
+	for _, e := range corpus.Types {
+		types = append(types, tl{"corpus:" + e.Name, TSpec{K: "corpus:" + e.Name}})
+	}
+	wrap := func(w string, t TSpec) TSpec {
+		if w == "array" {
+			return TSpec{K: "array", N: 2, E: ptrTo(cloneT(t))}
+		}
+		return TSpec{K: w, E: ptrTo(cloneT(t))}
+	}
+	wrappers := []string{"ptr", "slice", "array", "map"}
+	var out []pairCase
+	// wrapper x inner
+	for _, w := range wrappers {
+		for _, t := range types {
+			out = append(out, pairCase{w, t.name, oneField(plainField("F1", wrap(w, t.t)))})
+		}
+		for _, w2 := range wrappers {
+			out = append(out, pairCase{w, w2, oneField(plainField("F1", wrap(w, wrap(w2, TSpec{K: "int"}))))})
+		}
+	}
+	// field-level x type-level
+	all := append([]tl{}, types...)
+	for _, w := range wrappers {
+		all = append(all, tl{w, wrap(w, TSpec{K: "int"})})
+	}
+	fieldLevel := append(append([]string{}, modeFeatures...), "omitempty", "string-opt", "st:required", "st:description")
+	apply := func(fl string, f *FSpec) {
+		switch {
+		case fl == "omitempty":
+			f.Omit = true
+		case fl == "string-opt":
+			f.Str = true
+		case strings.HasPrefix(fl, "st:"):
+			f.ST = strings.TrimPrefix(fl, "st:")
+		case fl == "nameless":
+			f.Mode, f.Omit = fl, true
+		default:
+			f.Mode = fl
+			f.JName = modeName(fl, 1)
+		}
+	}
+	for _, fl := range fieldLevel {
+		for _, t := range all {
+			f := plainField("F1", cloneT(t.t))
+			apply(fl, &f)
+			out = append(out, pairCase{fl, t.name, oneField(f)})
+		}
+		// the same struct type used twice, the first occurrence under the field-level feature
+		f := plainField("F1", cloneT(inner))
+		apply(fl, &f)
+		out = append(out, pairCase{fl, "reuse", TSpec{K: "struct", F: []FSpec{f, plainField("F2", cloneT(inner))}}})
+	}
+	return out
+}
+
+// ---------------------------------------------------------------------------------------------
+// stage 2, random part: seeded compositions
 
 type gen struct {
 	rng *rand.Rand
